@@ -38,6 +38,7 @@ def strval(v):
 
 
 def check_serialize(run, L, path, fields, inv_adt):
+    """writer table of one type, read off the Serialize::serialize body itself - derived or hand-written alike"""
     short = path.split('::')[-1]
     keys = find_root(L, lambda k: ('impl serde::Serialize for %s<' % path) in k and k.endswith('::serialize'))
     key = '%s:ser:%s' % (PROP, path)
@@ -71,14 +72,29 @@ def check_serialize(run, L, path, fields, inv_adt):
     for i, (fname, e) in enumerate(zip(fields, tr[1:1 + n])):
         nm = strval(e['args'][1])
         ref = e['args'][2]
-        good = nm == fname and 'r' in ref and ref['r']['name'] == 'a0' and ref['r']['off'] == off
-        run.ob('%s:field:%s' % (key, fname), good, rule='K8 writer table', expected='field %d written as "%s" from self.%s (leaf offset %d)' % (i, fname, fname, off),
-               found='"%s" from %s+%s' % (nm, ref.get('r', {}).get('name'), ref.get('r', {}).get('off')), where=where)
+        txt = L.showval(ref)
+
+        def mentions(f_):
+            return re.search(r'a0\.%s(?![A-Za-z0-9_])' % re.escape(f_), txt) is not None
+        good = nm == fname and 'r' in ref and ref['r']['name'] == 'a0' and mentions(fname) and not any(mentions(o) for o in fields if o != fname)
+        roff = ref.get('r', {}).get('off')
+        if good and roff is not None and path != 'transform::Decomposed':
+            good = roff == off
+        run.ob('%s:field:%s' % (key, fname), good, rule='K8 writer table', expected='field %d written as "%s" from self.%s' % (i, fname, fname),
+               found='"%s" from %s' % (nm, txt[:80]), where=where)
         if 'r' in ref and ref['r']['n']:
             off += ref['r']['n']
     # the declared field idents are the documented names
     decl = [f['name'] for f in inv_adt['fields']]
     run.ob(key + ':idents', decl == fields, rule='K8 writer table', expected='declared fields %s' % fields, found=decl, where=inv_adt['span'])
+
+
+def const_strs(L, v):
+    """the strings of a constant &[&str] table argument"""
+    if isinstance(v, dict) and 'r' in v and isinstance(v['r'].get('val'), dict) and 'a' in v['r']['val']:
+        return [x.get('s') for x in v['r']['val']['a']]
+    m = re.findall(r'\\?"(\w+)\\?"', L.showval(v))
+    return m
 
 
 def check_deserialize_header(run, L, path, fields):
@@ -98,9 +114,93 @@ def check_deserialize_header(run, L, path, fields):
         run.ob(key + ':newtype', ok, rule='K8 reader table', expected='deserialize_newtype_struct("%s", ..)' % short, found=[e['fn'].split('::')[-1] for e in tr], where=r.get('span'))
         return
     ok = len(tr) == 1 and tr[0]['fn'].endswith('deserialize_struct') and strval(tr[0]['args'][1]) == short
-    ftxt = L.showval(tr[0]['args'][2]) if ok else ''
-    want = '&[' + ', '.join('\\"%s\\"' % f for f in fields) + ']'
-    run.ob(key + ':fields', ok and want in ftxt, rule='K8 reader table', expected='deserialize_struct("%s", FIELDS = %s)' % (short, fields), found=ftxt[-120:], where=r.get('span'))
+    got = const_strs(L, tr[0]['args'][2]) if ok else []
+    run.ob(key + ':fields', ok and got == fields, rule='K8 reader table', expected='deserialize_struct("%s", FIELDS = %s)' % (short, fields), found=got, where=r.get('span'))
+
+
+def reader_roots(L, path, method):
+    """Visitor methods of the hand-written reader of `path`: in the type's module, not inside a derive-generated block;
+    those naming the type are preferred (a module with several hand-written readers)"""
+    mod = path.split('::')[0] + '::'
+    c = [k for k in L.roots if k.endswith('::' + method) and 'serde::de::Visitor' in k and k.lstrip('<').startswith(mod) and '::_::<impl' not in k]
+    named = [k for k in c if ('for %s<' % path) in k]
+    return named or c
+
+
+def check_field_visitor(run, L, path, fields, root_key, strict):
+    """visit_str: name_i -> its own variant; any other key -> Err (strict) or the ignore variant (derive default).
+    Returns {name: variant index}."""
+    key = '%s:de:%s:visit_str' % (PROP, path.split('::')[-1] if path == 'transform::Decomposed' else path)
+    r = L.roots[root_key]
+    run.roots.add(root_key)
+    name_to_variant = {}
+    names_of = {}
+    good = True
+    unknown = None
+    for guards, leaf in ret_leaves(r['out']):
+        if leaf['k'] != 'ret':
+            good = False
+            continue
+        taken = [L.terms[tid] for kind, tid, want in guards if want is True]
+        if not all(kind == 'ite' and L.terms[tid][1] == 'eq' for kind, tid, want in guards):
+            good = False
+        v = leaf['v']
+        if taken:
+            t = taken[-1]
+            strs = [L.terms[x][1] for x in t[2] if L.terms[x][0] == 's']
+            if v.get('n') == 'Ok' and len(strs) == 1 and 'e' in v['f'][0]:
+                name_to_variant[strs[0]] = v['f'][0]['e']
+                names_of[strs[0]] = v['f'][0]['n']
+            else:
+                good = False
+        else:
+            unknown = v
+    uniq = len(set(name_to_variant.values())) == len(name_to_variant)
+    if strict:
+        unk_ok = unknown is not None and unknown.get('n') == 'Err'
+        want = 'any other key -> Err (unknown fields are rejected)'
+    else:
+        unk_ok = unknown is not None and unknown.get('n') == 'Ok' and 'e' in unknown['f'][0] and unknown['f'][0]['e'] not in name_to_variant.values()
+        want = 'any other key -> the ignore variant'
+    run.ob(key, good and unk_ok and uniq and sorted(name_to_variant) == sorted(fields), rule='K8 reader table',
+           expected='%s each to its own variant, %s' % (', '.join('"%s"' % f for f in fields), want), found='%s, unknown -> %s' % (names_of, L.showval(unknown)[:40] if unknown else None), where=r.get('span'))
+    return name_to_variant if (good and uniq and sorted(name_to_variant) == sorted(fields)) else {}
+
+
+def check_newtype_reader(run, L, path):
+    """hand-written reader of a newtype: visit_newtype_struct(d) = S::deserialize(d) wrapped, its error propagated"""
+    short = path.split('::')[-1]
+    key = '%s:de:%s:visit_newtype_struct' % (PROP, path)
+    keys = reader_roots(L, path, 'visit_newtype_struct')
+    if not run.ob(key + ':present', len(keys) == 1, rule='K8 reader table', expected='one visit_newtype_struct body', found=keys):
+        return
+    r = L.roots[keys[0]]
+    run.roots.add(keys[0])
+    where = r.get('span')
+    ls = ret_leaves(r['out'])
+    if not run.ob(key + ':analysable', all(l['k'] == 'ret' for g_, l in ls), rule='analysable', expected='finite summary', found=[l.get('why') for g_, l in ls if l['k'] != 'ret'][:1], where=where):
+        return
+    okc, errc = 0, 0
+    bad = []
+    for guards, leaf in ls:
+        calls = [e for e in leaf['trace']]
+        if not (len(calls) == 1 and calls[0]['fn'].endswith('Deserialize::deserialize')):
+            bad.append('calls %s' % [e['fn'].split('::')[-1] for e in calls])
+            continue
+        ct = L.show(calls[0]['ret'])
+        v = leaf['v']
+        txt = L.showval(v)
+        if v.get('n') == 'Ok':
+            okc += 1
+            if 'proj(variant(%s, 0), 0)' % ct not in txt or not all(kind == 'switch' and want == 0 for kind, tid, want in guards):
+                bad.append('Ok leaf: %s' % txt[:100])
+        elif v.get('n') == 'Err':
+            errc += 1
+            if txt != 'Err(proj(variant(%s, 1), 0))' % ct:
+                bad.append('Err leaf: %s' % txt[:100])
+        else:
+            bad.append(txt[:80])
+    run.ob(key, not bad and okc == 1 and errc >= 1, rule='K8 reader table', expected='Ok(%s(value read by the scalar\'s own Deserialize)), its error propagated unchanged' % short, found=bad[:2] or 'ok', where=where)
 
 
 def decode_guard(L, tid):
@@ -136,9 +236,9 @@ def decode_guard(L, tid):
     return None
 
 
-def check_visit_map(run, L, name_to_variant, inv_fields):
-    keys = find_root(L, lambda k: 'DecomposedVisitor' in k and k.endswith('::visit_map'))
-    key = '%s:de:Decomposed:visit_map' % PROP
+def check_visit_map(run, L, name_to_variant, inv_fields, path='transform::Decomposed'):
+    keys = reader_roots(L, path, 'visit_map')
+    key = '%s:de:%s:visit_map' % (PROP, 'Decomposed' if path == 'transform::Decomposed' else path)
     if not run.ob(key + ':present', len(keys) == 1, rule='K8 reader table', expected='visit_map body', found=keys):
         return
     r = L.roots[keys[0]]
@@ -228,9 +328,9 @@ def check_visit_map(run, L, name_to_variant, inv_fields):
     run.ob(key + ':paths', not errors, rule='K8 reader table (all key sequences up to the unrolling bound)', expected='every path: failing call propagated, missing field => Err(missing_field(that name)), complete => Ok with each slot from its own key\'s value',
            found=errors[:4], where=where)
     perms = set(itertools.permutations(sorted(variant_to_name)))
-    run.ob(key + ':permutations', perms <= ok_seqs, rule='K8 reader table', expected='all %d orders of the three fields are accepted' % len(perms), found='%d accepted sequences' % len(ok_seqs), where=where)
+    run.ob(key + ':permutations', perms <= ok_seqs, rule='K8 reader table', expected='all %d orders of the fields are accepted' % len(perms), found='%d accepted sequences' % len(ok_seqs), where=where)
     # key variant -> position in the result struct -> declared field ident == key name
-    okpos = all(len(p) == 1 for p in slot_pos.values()) and len(slot_pos) == 3
+    okpos = all(len(p) == 1 for p in slot_pos.values()) and len(slot_pos) == len(variant_to_name)
     names_ok = okpos and all(inv_fields[list(p)[0]] == variant_to_name[vn] for vn, p in slot_pos.items())
     run.ob(key + ':slot-names', names_ok, rule='K8 reader table', expected='the value read after key "f" ends up in the field named f', found={variant_to_name.get(k): sorted(p) for k, p in slot_pos.items()}, where=where)
     run.notes['visit_map_paths_analysed'] = n_done
@@ -249,85 +349,50 @@ def run(tier):
     run.ob('%s:cargo:serde' % PROP, bool(ok), rule='K8', expected='serde is an optional dependency with its derive feature', found=m.group(0) if m else 'no serde dependency', where='Cargo.toml')
     adts = {a['path']: a for a in inv['adts']}
     impls = inv['impls']
-    for path, fields in DERIVED.items():
+    types = dict(DERIVED)
+    types['transform::Decomposed'] = DEC_FIELDS
+    how = {}
+    for path, fields in types.items():
         a = adts.get(path)
-        key = '%s:derive:%s' % (PROP, path)
+        dec = path == 'transform::Decomposed'
+        key = '%s:derive:%s' % (PROP, path) if not dec else '%s:Decomposed' % PROP
         if not run.ob(key + ':present', a is not None, rule='K8', expected='type exists', found='missing'):
             continue
+        if dec:
+            dfields = [f['name'] for f in a['fields']]
+            run.ob('%s:Decomposed:idents' % PROP, dfields == DEC_FIELDS, rule='K8', expected=DEC_FIELDS, found=dfields)
         ser = [i for i in impls if i['trait'].endswith('ser::Serialize') and i['self'].startswith(path + '<')]
         de = [i for i in impls if i['trait'].endswith('de::Deserialize') and i['self'].startswith(path + '<')]
-        run.ob(key + ':impls', len(ser) == 1 and len(de) == 1 and ser[0]['derived'] and de[0]['derived'], rule='K8', expected='derived Serialize and Deserialize impls',
-               found='ser %s de %s' % ([i['derived'] for i in ser], [i['derived'] for i in de]), where=a['span'])
-        sattrs = [x for x in a['attrs'] if x.get('path') == 'serde'] + [x for f in a['fields'] for x in f['attrs'] if x.get('path') == 'serde']
-        run.ob(key + ':no-serde-attrs', not sattrs, rule='K8', expected='no #[serde(..)] attribute (rename / skip / default) on the type or its fields', found=[x.get('text') for x in sattrs], where=a['span'])
+        # whether an impl is derived or written by hand is not part of the property: both are read off their bodies.
+        run.ob(key + ':impls', len(ser) == 1 and len(de) == 1, rule='K8', expected='one Serialize and one Deserialize impl',
+               found='ser %d de %d' % (len(ser), len(de)), where=a['span'])
+        if len(ser) != 1 or len(de) != 1:
+            continue
+        how[path] = ('derived' if ser[0]['derived'] else 'manual', 'derived' if de[0]['derived'] else 'manual')
+        if ser[0]['derived'] or de[0]['derived']:
+            sattrs = [x for x in a['attrs'] if x.get('path') == 'serde'] + [x for f in a['fields'] for x in f['attrs'] if x.get('path') == 'serde']
+            run.ob(key + ':no-serde-attrs', not sattrs, rule='K8', expected='no #[serde(..)] attribute (rename / skip / default) on the type or its fields', found=[x.get('text') for x in sattrs], where=a['span'])
         check_serialize(run, L, path, fields, a)
         check_deserialize_header(run, L, path, fields)
-    # (c) Decomposed, hand-written
+        if de[0]['derived']:
+            if path not in NEWTYPES:
+                # the derived field identifier: "name_i" -> __field_i in declaration order, other keys ignored
+                ks = find_root(L, lambda k: ('for %s<' % path) in k and '__FieldVisitor' in k and k.endswith('::visit_str'))
+                if run.ob('%s:de:%s:visit_str:present' % (PROP, path), len(ks) == 1, rule='K8 reader table', expected='derived field-name visitor', found=ks):
+                    n2v = check_field_visitor(run, L, path, fields, ks[0], strict=False)
+                    run.ob('%s:de:%s:visit_str:order' % (PROP, path), [n2v.get(f) for f in fields] == list(range(len(fields))), rule='K8 reader table', expected='field i is identified by the i-th declared name', found=n2v, where=L.roots[ks[0]].get('span'))
+        elif path in NEWTYPES:
+            check_newtype_reader(run, L, path)
+        else:
+            # hand-written struct reader: strict field names, then every key sequence of visit_map
+            ks = reader_roots(L, path, 'visit_str')
+            tag = 'Decomposed' if dec else path
+            if run.ob('%s:de:%s:visit_str:present' % (PROP, tag), len(ks) == 1, rule='K8 reader table', expected='field-name visitor', found=ks):
+                n2v = check_field_visitor(run, L, path, fields, ks[0], strict=True)
+                if len(n2v) == len(fields):
+                    check_visit_map(run, L, n2v, [f['name'] for f in a['fields']], path)
+    run.notes['impl_kinds'] = how
     dec = adts.get('transform::Decomposed')
-    dfields = [f['name'] for f in dec['fields']] if dec else []
-    run.ob('%s:Decomposed:idents' % PROP, dfields == DEC_FIELDS, rule='K8', expected=DEC_FIELDS, found=dfields)
-    keys = find_root(L, lambda k: 'serde_ser::' in k and k.endswith('::serialize'))
-    if run.ob('%s:ser:Decomposed:present' % PROP, len(keys) == 1, rule='K8 writer table', expected='hand-written serialize', found=keys):
-        r = L.roots[keys[0]]
-        run.roots.add(keys[0])
-        okl = ok_leaf(L, r['out'])
-        tr = okl[1]['trace'] if okl else []
-        names = [e['fn'].split('::')[-1] for e in tr]
-        shape = names == ['serialize_struct', 'serialize_field', 'serialize_field', 'serialize_field', 'end']
-        run.ob('%s:ser:Decomposed:shape' % PROP, shape, rule='K8 writer table', expected='serialize_struct, 3 x serialize_field, end', found=names, where=r.get('span'))
-        if shape:
-            hdr = tr[0]['args']
-            run.ob('%s:ser:Decomposed:header' % PROP, strval(hdr[1]) == 'Decomposed' and hdr[2].get('i') == '3', rule='K8 writer table', expected='("Decomposed", 3)', found=[L.showval(x)[:30] for x in hdr[1:]], where=r.get('span'))
-            for i, (fname, e) in enumerate(zip(DEC_FIELDS, tr[1:4])):
-                nm = strval(e['args'][1])
-                ref = e['args'][2]
-                want_atom = 'a0.%s' % fname
-                txt = L.showval(ref)
-                good = nm == fname and 'r' in ref and ref['r']['name'] == 'a0' and want_atom in txt and not any(('a0.%s' % o) in txt for o in DEC_FIELDS if o != fname)
-                run.ob('%s:ser:Decomposed:field:%s' % (PROP, fname), good, rule='K8 writer table', expected='"%s" written from self.%s' % (fname, fname), found='"%s" from %s' % (nm, txt[:80]), where=r.get('span'))
-    # reader: FIELDS
-    keys = find_root(L, lambda k: 'serde_de::' in k and 'for transform::Decomposed<' in k and k.endswith('>::deserialize'))
-    if run.ob('%s:de:Decomposed:present' % PROP, len(keys) == 1, rule='K8 reader table', expected='hand-written deserialize', found=keys):
-        r = L.roots[keys[0]]
-        run.roots.add(keys[0])
-        ls = [l for g_, l in ret_leaves(r['out']) if l['k'] == 'ret']
-        tr = ls[0]['trace'] if ls else []
-        ok = len(tr) == 1 and tr[0]['fn'].endswith('deserialize_struct') and strval(tr[0]['args'][1]) == 'Decomposed'
-        want = '&[' + ', '.join('\\"%s\\"' % f for f in DEC_FIELDS) + ']'
-        ftxt = L.showval(tr[0]['args'][2]) if ok else ''
-        run.ob('%s:de:Decomposed:fields' % PROP, ok and want in ftxt, rule='K8 reader table', expected='deserialize_struct("Decomposed", ["scale","rot","disp"], visitor)', found=ftxt[-100:], where=r.get('span'))
-    # reader: visit_str maps each name to its own variant, everything else to Err
-    name_to_variant = {}
-    keys = find_root(L, lambda k: 'DecomposedFieldVisitor' in k and k.endswith('::visit_str'))
-    if run.ob('%s:de:Decomposed:visit_str:present' % PROP, len(keys) == 1, rule='K8 reader table', expected='field-name visitor', found=keys):
-        r = L.roots[keys[0]]
-        run.roots.add(keys[0])
-        good = True
-        unknown_err = False
-        for guards, leaf in ret_leaves(r['out']):
-            if leaf['k'] != 'ret':
-                good = False
-                continue
-            taken = [L.terms[tid] for kind, tid, want in guards if want is True]
-            all_eq = all(kind == 'ite' and L.terms[tid][1] == 'eq' for kind, tid, want in guards)
-            if not all_eq:
-                good = False
-            v = leaf['v']
-            if taken:
-                t = taken[-1]
-                strs = [L.terms[x][1] for x in t[2] if L.terms[x][0] == 's']
-                if v.get('n') == 'Ok' and len(strs) == 1 and 'e' in v['f'][0]:
-                    name_to_variant[strs[0]] = v['f'][0]['e']
-                    if v['f'][0]['n'].lower() != strs[0]:
-                        good = False
-                else:
-                    good = False
-            else:
-                unknown_err = v.get('n') == 'Err'
-        run.ob('%s:de:Decomposed:visit_str' % PROP, good and unknown_err and sorted(name_to_variant) == sorted(DEC_FIELDS) and len(set(name_to_variant.values())) == 3, rule='K8 reader table',
-               expected='"scale" -> Scale, "rot" -> Rot, "disp" -> Disp, any other key -> Err (unknown fields are rejected)', found='%s, unknown -> %s' % (name_to_variant, 'Err' if unknown_err else 'not Err'), where=r.get('span'))
-    if len(name_to_variant) == 3:
-        check_visit_map(run, L, name_to_variant, dfields)
     run.floor('derived_types', len([p for p in DERIVED if p in adts]), 20)
     run.floor('roots', len(run.roots), 40)
     return run.finish(
